@@ -185,7 +185,9 @@ impl<TInner> Negotiated<TInner> {
                     return Poll::Ready(Err(NegotiationError::Failed));
                 }
 
-                _ => panic!("Negotiated: Invalid state"),
+                // A previous poll failed the negotiation; the stream stays unusable.
+                State::Invalid => return Poll::Ready(Err(NegotiationError::Failed)),
+                State::Completed { .. } => unreachable!("handled above"),
             }
         }
     }
@@ -195,6 +197,11 @@ impl<TInner> Negotiated<TInner> {
     pub fn complete(self) -> NegotiatedComplete<TInner> {
         NegotiatedComplete { inner: Some(self) }
     }
+}
+
+/// The error returned by I/O operations on a `Negotiated` whose negotiation failed earlier.
+fn invalid_state() -> io::Error {
+    io::Error::other("Negotiated: stream is unusable after a failed negotiation")
 }
 
 /// The states of a `Negotiated` I/O stream.
@@ -295,7 +302,7 @@ where
         match self.project().state.project() {
             StateProj::Completed { io } => io.poll_write(cx, buf),
             StateProj::Expecting { io, .. } => io.poll_write(cx, buf),
-            StateProj::Invalid => panic!("Negotiated: Invalid state"),
+            StateProj::Invalid => Poll::Ready(Err(invalid_state())),
         }
     }
 
@@ -303,7 +310,7 @@ where
         match self.project().state.project() {
             StateProj::Completed { io } => io.poll_flush(cx),
             StateProj::Expecting { io, .. } => io.poll_flush(cx),
-            StateProj::Invalid => panic!("Negotiated: Invalid state"),
+            StateProj::Invalid => Poll::Ready(Err(invalid_state())),
         }
     }
 
@@ -327,7 +334,7 @@ where
                 }
                 close_poll
             }
-            StateProj::Invalid => panic!("Negotiated: Invalid state"),
+            StateProj::Invalid => Poll::Ready(Err(invalid_state())),
         }
     }
 
@@ -339,7 +346,7 @@ where
         match self.project().state.project() {
             StateProj::Completed { io } => io.poll_write_vectored(cx, bufs),
             StateProj::Expecting { io, .. } => io.poll_write_vectored(cx, bufs),
-            StateProj::Invalid => panic!("Negotiated: Invalid state"),
+            StateProj::Invalid => Poll::Ready(Err(invalid_state())),
         }
     }
 }
